@@ -296,6 +296,11 @@ def check_file_scanner(case, stats):
     import shutil
     src = case["file"]
     name = "listed-%d.feature" % os.getpid()
+    if case.get("text") is not None:
+        # a generated file (UTF-8, like every feature file): comment lines that other tools read as encoding / editor directives are comments
+        src = name + ".src"
+        with open(src, "w", encoding="utf8") as f:
+            f.write(case["text"])
     shutil.copyfile(src, name)
     want = listing(open(src, encoding="utf8").read())
     stats.case((os.path.basename(src), case["then"]), True, sample=case)
@@ -312,7 +317,7 @@ def check_file_scanner(case, stats):
         got = gh.Parser(gh.TokenFormatterBuilder()).parse(sc, gh.TokenMatcher("en"))
     finally:
         os.chdir(here)
-        for f in (name, name + ".moved"):
+        for f in (name, name + ".moved", name + ".src"):
             if os.path.exists(f):
                 os.unlink(f)
     if got != want:
@@ -352,6 +357,9 @@ def unit_golden(a):
     sweep(stats, [{"sub": "script", "files": names[i:i + 6]} for i in range(0, len(names), 6)] + [{"sub": "script", "files": names[::-1][:10]}], check_script)
     sweep(stats, [{"sub": "golden", "file": os.path.basename(f)} for f in files], check_golden)
     sweep(stats, [{"sub": "file-scanner", "file": f, "then": "parse"} for f in files[::4]], check_file_scanner)
+    sweep(stats, [{"sub": "file-scanner", "file": "generated", "then": "parse", "text": t} for t in (
+        "# encoding: iso-8859-1\n@caf\u00e9 @t\nFeature: Caf\u00e9\n Scenario: \u00fc\n  Given \u00e9\n   | \u00e4 | b |\n", "# -*- coding: latin-1 -*-\n# language: fr\nFonctionnalit\u00e9: f\n Sc\u00e9nario: s\n  Soit x\n",
+        "# vim: set fileencoding=cp1252 :\nFeature: \u20ac\n", "#!encoding: utf-16\nFeature: f\n @\u65e5\u672c\n Scenario: s\n")], check_file_scanner)
     sweep(stats, [{"sub": "text", "text": t, "label": "corpus"} for n, t in noisy.corpus_texts()], check_text)
     return stats
 
